@@ -164,16 +164,16 @@ pub fn pp1(
         debug_assert!(b == chebyshev_modn(&zn, &g, exp));
         v
     };
-    // Compute the giant steps i*d1 for i in 2..2+d2
+    // Compute the giant steps i*d1 for i in 1..=d2
+    // (L(0) = 2 is not a giant step: B2 = d1*d2 is only reached by i = d2)
     let d2 = d2 as usize;
     let gsteps = {
         let mut steps = Vec::with_capacity(d2);
         let mut dgprev = two;
         let mut dg = chebyshev_modn(&zn, &g, d1);
         let step = dg;
-        steps.push(two);
         steps.push(dg);
-        for _ in 2..d2 {
+        for _ in 1..d2 {
             let dgnext = zn.sub(&zn.mul(&dg, &step), &dgprev);
             steps.push(dgnext);
             (dgprev, dg) = (dg, dgnext);
